@@ -17,12 +17,23 @@ CLAIMED = {
             "table width (R3); carry/signed-carry/signed-borrow conditions equal the P-Code truth tables (R4); each arm is the apint primitive of its mnemonic with P-Code operand "
             "order (R5); operator traits delegate correctly (R6). A violated clause is a wrong folded value for some operand pair; the numeric behaviour of apint itself is trusted.",
             "3/C01", "apint::Int::is_positive == !is_negative (sign bit unset), read from apint 0.2 source"),
+    "C05": ("field-visibility facts + enumeration of all mutation sites of the cell map by resolved receiver; per-insert justification analysis (dominating clear_interval with matching position/size, same-key replacement, overlap guards, uniform shift; !is_top guard, non-top-returning helper summary, copy, following clear_top_values); crate-wide callers of the mutable iterator",
+            "Decides the store discipline that keeps an abstract memory region a set of non-overlapping, non-Top cells: the cell map is private and only written in mem_region.rs (R1); no insert can store Top (R2); "
+            "no insert can create an overlap (R3); every caller of the mutable-iterator escape hatch cleans up Top values afterwards (R4). That reads return the last write and the arithmetic of the overlap "
+            "tests are not decided.",
+            "3/C05", ""),
     "C07": ("field-visibility facts + writer enumeration (who-may-write); change=>enqueue pairing on path conditions; lost-node analysis of the dequeue loops on normalised terms; merge-test provenance (old vs new value); deliberately no ordering rule",
             "Decides the worklist invariant of fixpoint::Computation from which least-solution-for-any-order follows for monotone clients: state fields are private and written only by known methods (R1); "
             "every write of a node value enqueues that node's priority on the same path (R2); every dequeued node is processed or remembered, every outgoing edge updated, every Some result merged into the end node, "
             "and a merged value stored exactly when it differs from the OLD value (R3); steps<max guards processing with the increment, has_stabilized <=> empty worklist (R4); priority lists contain every node (R5). "
             "Edits that only change the processing order stay silent (seeded negative control). Monotonicity/finite height of clients is not decided.",
             "3/C07", ""),
+    "C09": ("block-target slot universe derived from the Jmp type definition; slot-coverage sibling cross-check over the four passes that repair/follow/rename block targets (bindings followed through nested destructuring); per-term-level insertion analysis of the duplicate-tid pass; statement-order analysis of normalize_basic",
+            "Decides slot agreement and pass order of basic normalisation: every pass over block targets treats every Tid/Option<Tid> field of Jmp (except the callee) and Blk.indirect_jmp_targets (R1); duplicate removal "
+            "covers all five term levels in one set and block cloning re-suffixes block/def/jmp ids (R2); normalize_basic runs all five passes with dedup, sink creation and reference repair before block duplication (R3); "
+            "non-returning calls return to the enclosing function's sink, which is added (R4). A pure refactoring of normalize_basic stays silent (seeded negative control). The joint behaviour on arbitrary irregular "
+            "inputs is not decided.",
+            "3/C09", ""),
     "C10": ("slot coverage derived from the Def/Jmp type definitions; gen/kill analysis of retain predicates (closure parameters, upvars) with sibling cross-check of the two transfer functions; match-table and path-condition polarity checks",
             "Decides the dataflow side conditions of the optimising passes: liveness makes every Expression slot of Def/Jmp alive and kills before it gens (R1); only Assign is deleted, only when "
             "not alive, iterating backwards (R2); both expression-propagation transfer functions kill, for Assign and Load, the entry keyed by the defined variable and all entries mentioning it, "
